@@ -120,6 +120,14 @@ claim("C10", "seqbfs",
       "depth 3 quick / 4 thorough over values {1,2} x {0,1,2} dicts; timing nodes are covered through the C04/C05 scenario recorders only as far as reference counts are concerned",
       "DESIGN.md §3 C10")
 
+claim("C15", "seqbfs",
+      "explicit-state BFS over graph-edit histories on a pool of real nodes, reference graph interpreter over the current edge list as oracle",
+      "17 operations (emits at three sources, connect/disconnect of every edge into a join that keeps the graph free of parallel edges, destroy of join and map, drop-last-reference + gc.collect(), sink.destroy()) "
+      "x 4 join kinds (zip, combine_latest plain / emit_on, union), all histories to depth 5 (6 thorough) with dedup on (edge lists, join state); after every operation links must be mutually consistent, "
+      "build_node_set must equal the reference reachable set and deliveries must equal the reference over the current edges (zip: every complete tuple by the edit or the next arrival; gc'ed branch silent; sink alive until destroyed).",
+      "fixed node pool; parallel edges excluded by construction; operations documented to raise (removing the emit_on stream) are not generated",
+      "DESIGN.md §3 C15")
+
 ALL = ["C%02d" % i for i in range(1, 21)]
 
 
